@@ -13,7 +13,7 @@ RULE = ("random histories with a simulated Bitcoin chain (real transactions, 80-
 def run(tier, seed, work):
     quick = tier == "quick"
     mc = [("MC_Bridge.tla", "MC_Bridge_deposits.cfg" if quick else "MC_Bridge_deposits_thorough.cfg")]
-    per, depth, nj = (3, 40, 10) if quick else (25, 50, 12)
+    per, depth, nj = (6, 40, 12) if quick else (25, 50, 12)
     js = bc.jobs("c03", seed, per, depth, nj) + bc.jobs("c03deep", seed + 5, max(1, per // 2), depth, 4, mode="deep")
     # "at most once in the lifetime of the chain" spans restarts from an exported state: mixed histories with export / import
     # cycles, continued on the imported chain (the deposited set must survive, re-submitted deposits must be refused)
